@@ -71,7 +71,7 @@ def run():
                 kind = classify_unknown(b, bb)
             if kind == 'err':
                 st = ra.state_after(bb)
-                out |= {f for f in fields if st and st[f] == DIRTY}
+                out |= {f for f in fields if st and st[f] == DIRTY and not ra.ok_only(st, f, bb)}
         return out
     FL = ['attributes', 'observations', 'history']
     res.append(('P6 good restore silent', dirty_at_err('update_good', FL) == set(), ''))
